@@ -43,24 +43,27 @@ RESTRICT_FINDING = {'module': 'Restrict',
                     'finding': 'authorized_keys-restrict-keyword-ignored'}
 
 
-def write_cfg(name, consts, invariants):
+def write_cfg(name, consts, invariants, module='Restrict'):
     d = dict(Tier='"quick"', Sections=ALL, RestrictRule='TRUE',
              EmptyCertIsNoCert='FALSE', KeyCommandFirst='FALSE',
              EitherGrants='FALSE')
+    if module == 'RestrictSeq':
+        d.update(Sections='{}', Carry='"reset"', SeqTier='"quick"')
     d.update(consts)
     lines = ['CONSTANTS'] + [f'  {k} = {v}' for k, v in d.items()]
-    lines += ['SPECIFICATION Spec', 'CHECK_DEADLOCK FALSE']
+    lines += ['SPECIFICATION ' + ('HSpec' if module == 'RestrictSeq'
+                                  else 'Spec'), 'CHECK_DEADLOCK FALSE']
     lines += [f'INVARIANT {i}' for i in invariants]
     with open(os.path.join(SPEC, name), 'w') as f:
         f.write('\n'.join(lines) + '\n')
     return name
 
 
-def tlc_job(tag, consts, invariants, workers=WORKERS):
+def tlc_job(tag, consts, invariants, workers=WORKERS, module='Restrict'):
     """Start-to-finish TLC run (thread-safe: own cfg, own metadir)."""
-    cfg = write_cfg(f'_{tag}.cfg', consts, invariants)
+    cfg = write_cfg(f'_{tag}.cfg', consts, invariants, module)
     try:
-        return tlc.run(SPEC, 'Restrict', cfg, tag, timeout=900,
+        return tlc.run(SPEC, module, cfg, tag, timeout=1800,
                        workers=workers)
     finally:
         os.remove(os.path.join(SPEC, cfg))
@@ -102,6 +105,50 @@ def sensitivity(quick):
     return runs
 
 
+HIST_INVS = ['NoCarryOver', 'VerdictHistoryIndependent', 'NoLoosening',
+             'ForcedCommandOfAccepted']
+
+
+def hist_job(tier):
+    """RestrictSeq: the history-independence rule over request sequences
+    (model with both option sets cleared per request) + the rows."""
+    return tlc_job('C05r_hist', dict(SeqTier=f'"{tier}"'),
+                   HIST_INVS + ['EmitHist'], workers=1, module='RestrictSeq')
+
+
+def hist_rows(res):
+    pool, rows = None, []
+    for line in res.output.splitlines():
+        if line.startswith('"<<\\"POOL'):
+            v = tlc.parse_value(tlc.parse_value(line))
+            pool = (v[1], v[2])
+        elif line.startswith('"<<\\"HROW'):
+            v = tlc.parse_value(tlc.parse_value(line))
+            rows.append((v[1], v[2]))
+    return pool, rows
+
+
+def hist_sensitivity(quick):
+    """(tag, constants, invariants, invariant that must be violated or None)
+    for RestrictSeq."""
+    q = dict(SeqTier='"quick"')
+    return [
+        # the wrong variant: options kept on the validate_ca_key path
+        ('C05r_hsens1', dict(q, Carry='"keep"'),
+         ['VerdictHistoryIndependent'], 'VerdictHistoryIndependent'),
+        # asyncssh as coded: never lets anybody in / widens anything ...
+        ('C05r_hcoded', dict(q, Carry='"coded"'),
+         ['VerdictHistoryIndependent', 'NoLoosening'], None),
+        # ... but does carry options over (fail-closed, and finding
+        # STALE_FORCE_FINDING)
+        ('C05r_hsens2', dict(q, Carry='"coded"'),
+         ['NoCarryOver'], 'NoCarryOver'),
+    ] + ([] if quick else [
+        ('C05r_hsens3', dict(q, Carry='"coded"'),
+         ['ForcedCommandOfAccepted'], 'ForcedCommandOfAccepted'),
+    ])
+
+
 def _set(v):
     return v['$set'] if isinstance(v, dict) and '$set' in v else list(v)
 
@@ -110,16 +157,23 @@ def run(ctx, quick):
     from harness.drivers import restrict as R
     tier = 'quick' if quick else 'thorough'
 
-    # ---- 1. the rule as a decision table ----
+    # ---- 1. the rules as decision tables ----
+    # the sequence table (RestrictSeq) is computed while the single-request
+    # rows are replayed
+    pool = ThreadPoolExecutor(max_workers=4)
+    hist = pool.submit(hist_job, tier)
     rows = table(ctx, tier)
     ctx.require(len(rows) > (500 if quick else 1500),
                 f'Restrict table has only {len(rows)} rows')
-    # deliberately wrong variants of the rule must be rejected; these small
+    # deliberately wrong variants of the rules must be rejected; these small
     # runs proceed while the rows are replayed
-    pool = ThreadPoolExecutor(max_workers=3)
-    jobs = [(tag, consts, inv,
-             pool.submit(tlc_job, tag, consts, [inv], 1))
+    jobs = [(f'Restrict {tag} {consts} (wrong rule, expected to violate '
+             f'{inv})', inv, pool.submit(tlc_job, tag, consts, [inv], 1))
             for tag, consts, inv in sensitivity(quick)]
+    jobs += [(f'RestrictSeq {tag} {consts} ' +
+              (f'(expected to violate {exp})' if exp else f'{invs}'), exp,
+              pool.submit(tlc_job, tag, consts, invs, 2, 'RestrictSeq'))
+             for tag, consts, invs, exp in hist_sensitivity(quick)]
 
     # ---- 2. every row against the real server ----
     try:
@@ -127,15 +181,26 @@ def run(ctx, quick):
         for cred, verdict in rows:
             n += 1
             judge(ctx, R, cred, verdict, n)
-        ctx.traces_validated(n)
         ctx.coverage['restrict_rows'] = n
+        # ---- 3. request sequences on one connection (raw client) ----
+        res = hist.result()
+        ctx.require_tlc_ok(f'RestrictSeq table + invariants {tier}', res)
+        hpool, hrows = hist_rows(res)
+        ctx.require(hpool is not None and
+                    len(hrows) > (300 if quick else 1500),
+                    f'RestrictSeq emitted {len(hrows)} rows')
+        tolerated = {}
+        for h, verdict in hrows:
+            n += 1
+            judge_hist(ctx, R, h, verdict, hpool, n, tolerated)
+        ctx.traces_validated(n)
+        ctx.coverage['restrict_seq_rows'] = len(hrows)
+        ctx.coverage['restrict_seq_failclosed_carryover'] = tolerated
     finally:
         R.cleanup()
         pool.shutdown(wait=True)
-    for tag, consts, inv, fut in jobs:
-        ctx.require_tlc_ok(f'Restrict {tag} {consts} (wrong rule, expected '
-                           f'to violate {inv})', fut.result(),
-                           expect_violation=inv)
+    for name, exp, fut in jobs:
+        ctx.require_tlc_ok(name, fut.result(), expect_violation=exp)
     ctx.assumptions += [
         'Restrict: permissions are observed at the point where the server '
         'hands the request to the application (pty_requested, '
@@ -146,6 +211,13 @@ def run(ctx, quick):
         'client address only (no reverse DNS); security-key '
         'no-touch-required is outside the table',
     ]
+    ctx.notes.append(
+        'RestrictSeq: asyncssh never clears _key_options / _cert_options '
+        'between authentication requests; where that only ADDS restrictions '
+        'of a credential that was examined earlier (no-* words, missing '
+        'certificate permits, permitopen, a forced command where the '
+        'admitted credential has none, environment=) it is counted in '
+        'coverage.restrict_seq_failclosed_carryover and not alarmed')
     ctx.notes.append(
         'Restrict: modelled as coded and not alarmed: a certificate without '
         'principals is valid for every user; when both force-command and '
@@ -255,3 +327,120 @@ def judge(ctx, R, cred, verdict, n):
             if got['env'] is not None and got['env'].get('N') != exp_env:
                 ctx.divergence(f'{desc}: environment N: model {exp_env!r}, '
                                f'code {got["env"].get("N")!r}')
+
+
+# a certificate examined earlier on the connection (query / bad signature)
+# leaves its force-command behind; it then replaces command= of the key that
+# is admitted: fixes/C05r_reset_credential_options.patch
+STALE_FORCE_FINDING = {'module': 'RestrictSeq',
+                       'finding': 'stale-certificate-force-command'}
+
+
+def judge_hist(ctx, R, h, verdict, hpool, n, tolerated):
+    case, kw = R.to_hist_case(h, hpool)
+    obs = R.run_case(case, **kw)
+    desc = R.describe_hist(case)
+    ctx.count(('hist', desc), nontrivial=True)
+    alone, coded = verdict['alone'], verdict['coded']
+    replay = {'kind': 'restrict-seq', 'case': case, 'kw': kw,
+              'spec_verdict': verdict, 'observed': obs}
+    base = {'module': 'RestrictSeq', 'class': verdict['class'],
+            'steps': [s['kind'] for s in case['steps']]}
+    if n % 173 == 1:
+        ctx.sample({'row': desc, 'spec': {'replies': alone['replies'],
+                                          'user': alone['user']},
+                    'observed': {'replies': obs.get('replies'),
+                                 'user': obs['granted']}})
+
+    def tolerate(what):
+        tolerated[what] = tolerated.get(what, 0) + 1
+
+    if obs['errors'] or obs['loop_exceptions']:
+        ctx.divergence(f'{desc}: harness trouble {obs["errors"]} '
+                       f'{obs["loop_exceptions"]}')
+        return
+    # -- who gets in
+    for i, (got, exp) in enumerate(zip(obs['replies'], alone['replies'])):
+        if got == exp:
+            continue
+        st = case['steps'][i]
+        if got == 'success':
+            ctx.violation(dict(base, clause='NoCarryOver-admission',
+                               step=st['kind'], cred=st['name']),
+                          f'request {i + 1} {st["kind"]}({st["user"]}, '
+                          f'{st["name"]}) admitted although this credential '
+                          f'is not valid for {st["user"]} on its own: {desc}',
+                          replay=replay)
+            return
+        ctx.divergence(f'{desc}: reply {i + 1}: model {exp}, code {got}')
+        return
+    if obs['accepted'] != alone['acc'] or \
+            obs['server_accepted'] != alone['acc']:
+        ctx.divergence(f'{desc}: admitted: model {alone["acc"]}, client '
+                       f'{obs["accepted"]}, server {obs["server_accepted"]}')
+        return
+    if not alone['acc']:
+        return
+    if obs['granted'] != alone['user']:
+        ctx.violation(dict(base, clause='NoCarryOver-user'),
+                      f'admitted as {obs["granted"]} by a request for '
+                      f'{alone["user"]}: {desc}', replay=replay)
+        return
+    # -- restrictions in force
+    want, cwant = set(_set(alone['ops'])), set(_set(coded['ops']))
+    for op, allowed in sorted(obs['ops'].items()):
+        if allowed and op not in want:
+            ctx.violation(dict(base, clause='PermissionEnforced', op=op),
+                          f'{op} allowed although the admitted credential\'s '
+                          f'restrictions forbid it: {desc}', replay=replay)
+        elif not allowed and op in want:
+            if op not in cwant:
+                tolerate('permission')
+            else:
+                ctx.divergence(f'{desc}: model allows {op}, code refuses')
+    fmt = lambda ds: {f'{d["h"]}:{d["p"]}' for d in _set(ds)}
+    dwant, dcoded = fmt(alone['dests']), fmt(coded['dests'])
+    for d, (allowed, _code) in sorted(obs['dests'].items()):
+        if allowed and d not in dwant:
+            ctx.violation(dict(base, clause='PermitOpenEnforced'),
+                          f'direct-tcpip to {d} allowed although the '
+                          f'admitted credential forbids it: {desc}',
+                          replay=replay)
+        elif not allowed and d in dwant:
+            if d not in dcoded:
+                tolerate('permitopen')
+            else:
+                ctx.divergence(f'{desc}: model allows open to {d}, code '
+                               f'refuses')
+    cstarted = {(t[0], t[1]): (t[2], t[3]) for t in _set(coded['started'])}
+    for rk, ra, sk, sa in _set(alone['started']):
+        req = R.req_name(rk, ra)
+        got = obs['started'].get(req)
+        if got is None:
+            continue
+        text = lambda k_, a_: [k_, R.cmd_text(a_) if k_ == 'exec' else
+                               (None if k_ == 'shell' else a_)]
+        exp = text(sk, sa)
+        if got['start'] == exp and got['n'] == 1:
+            continue
+        as_coded = got['start'] == text(*cstarted.get((rk, ra), (rk, ra)))
+        if (sk, sa) != (rk, ra) and got['start'] is not None:
+            ctx.violation(
+                STALE_FORCE_FINDING if as_coded else
+                dict(base, clause='ForcedCommandEnforced', request=rk),
+                f'session started {got["start"]} although the admitted '
+                f'credential forces {exp}: {desc}', replay=replay)
+        elif as_coded:
+            tolerate('forced-command')
+        else:
+            ctx.divergence(f'{desc}: request {req}: model {exp}, code {got}')
+    exp_env, coded_env = R.env_text(alone['env']), R.env_text(coded['env'])
+    for req, got in obs['started'].items():
+        if got['env'] is None or got['env'].get('N') == exp_env:
+            continue
+        if got['env'].get('N') == coded_env:
+            tolerate('environment')
+        else:
+            ctx.divergence(f'{desc}: environment N: model {exp_env!r}, code '
+                           f'{got["env"].get("N")!r}')
+        break
